@@ -16,11 +16,20 @@
 (* finalizer on the input (C07), and orphaned if the input is destroyed    *)
 (* (C06).  FinBeforeOut / C06 hold for IgnoreUntil = FALSE and are         *)
 (* violated for TRUE exactly as on the code (known finding).               *)
+(*                                                                         *)
+(* Extra = TRUE: a secondary (extra mapped) input kind.  The transform     *)
+(* reads the secondary resource while it computes the output (rr3 reads,   *)
+(* rr3w writes: two store operations, the secondary may change in          *)
+(* between); a change of the secondary queues a map job (secPending) whose *)
+(* mapper names the primary input, which makes the item dirty.  The image  *)
+(* of an input is 10 * in.val + sec.                                       *)
 (***************************************************************************)
 EXTENDS Integers, Sequences, FiniteSets, TLC
-CONSTANTS MaxExt, IgnoreUntil, AllowedFins     \* IgnoreUntil: BOOLEAN (WithIgnoreTeardownUntil(AllowedFins))
-VARIABLES in, out, ext, pc, lin, dirty, mapPending, viol
-vars == <<in, out, ext, pc, lin, dirty, mapPending, viol>>
+CONSTANTS MaxExt, IgnoreUntil, AllowedFins,    \* IgnoreUntil: BOOLEAN (WithIgnoreTeardownUntil(AllowedFins))
+          Extra                               \* BOOLEAN (WithExtraMappedInput)
+VARIABLES in, out, ext, pc, lin, dirty, mapPending, viol, sec, lsec, secPending
+vars == <<in, out, ext, pc, lin, dirty, mapPending, viol, sec, lsec, secPending>>
+svars == <<sec, lsec, secPending>>
 Absent == [ex |-> FALSE, ph |-> "run", fins |-> {}, val |-> 0]
 C == "C"   \* controller finalizer
 F == "F"   \* foreign finalizer on outputs
@@ -28,6 +37,7 @@ X == "X"   \* foreign finalizer on inputs
 Vals == {1, 2}
 
 Init == in = Absent /\ out = Absent /\ ext = 0 /\ pc = "idle" /\ lin = Absent /\ dirty = FALSE /\ mapPending = FALSE /\ viol = "none"
+        /\ sec = 0 /\ lsec = 0 /\ secPending = FALSE
 
 DReady(o) == o.ex /\ o.ph = "td" /\ o.fins = {}
 \* effects of a write to the output: destroy-ready mapped input notification
@@ -35,7 +45,12 @@ OutWritten(old, new) == IF DReady(new) \/ (~new.ex /\ DReady(old)) THEN TRUE ELS
 
 ExtStep(nin, nout) == /\ ext < MaxExt /\ ext' = ext + 1 /\ in' = nin /\ out' = nout
                       /\ dirty' = (dirty \/ nin # in) /\ mapPending' = (IF nout # out THEN OutWritten(out, nout) ELSE mapPending)
-                      /\ UNCHANGED <<pc, lin, viol>>
+                      /\ UNCHANGED <<pc, lin, viol>> /\ UNCHANGED svars
+(* the secondary is created / updated / destroyed (value 0 = absent): its watch event queues a map job *)
+SecChange == /\ Extra /\ ext < MaxExt /\ ext' = ext + 1
+             /\ \E v \in {0, 1, 2} \ {sec} : sec' = v
+             /\ secPending' = TRUE
+             /\ UNCHANGED <<in, out, pc, lin, dirty, mapPending, viol, lsec>>
 Ext == \/ ~in.ex /\ \E v \in Vals : ExtStep([ex |-> TRUE, ph |-> "run", fins |-> {}, val |-> v], out)
        \/ in.ex /\ in.ph = "run" /\ \E v \in Vals \ {in.val} : ExtStep([in EXCEPT !.val = v], out)
        \/ in.ex /\ in.ph = "run" /\ ExtStep([in EXCEPT !.ph = "td"], out)
@@ -52,60 +67,66 @@ Stay == UNCHANGED <<in, out, dirty, mapPending>>
 Done == pc' = "idle"
 Fail == pc' = "idle"   \* requeue with backoff: dirty set by caller
 
-Start == /\ pc = "idle" /\ dirty /\ pc' = "r0" /\ dirty' = FALSE /\ UNCHANGED <<in, out, ext, lin, mapPending, viol>>
+Start == /\ pc = "idle" /\ dirty /\ pc' = "r0" /\ dirty' = FALSE /\ UNCHANGED <<in, out, ext, lin, mapPending, viol>> /\ UNCHANGED svars
 
-R0 == /\ pc = "r0" /\ lin' = in /\ UNCHANGED <<in, out, ext, dirty, mapPending, viol>>
+R0 == /\ pc = "r0" /\ lin' = in /\ UNCHANGED <<in, out, ext, dirty, mapPending, viol>> /\ UNCHANGED svars
       /\ IF ~in.ex THEN pc' = "idle"
          ELSE IF in.ph = "run" THEN pc' = "rr1"
          ELSE LET unexpected == \E f \in in.fins : f # C /\ IgnoreUntil /\ f \notin AllowedFins
               IN pc' = IF unexpected THEN "rr1" ELSE "td1"
 
-RR1 == /\ pc = "rr1" /\ UNCHANGED <<ext, lin, viol>>
+RR1 == /\ pc = "rr1" /\ UNCHANGED <<ext, lin, viol>> /\ UNCHANGED svars
        /\ IF C \notin lin.fins /\ lin.ph = "run"
           THEN IF in.ex THEN WIn([in EXCEPT !.fins = @ \cup {C}]) /\ pc' = "rr2"
                ELSE /\ pc' = "idle" /\ dirty' = TRUE /\ UNCHANGED <<in, out, mapPending>>   \* AddFinalizer NotFound -> error -> requeue
           ELSE Stay /\ pc' = "rr2"
 
-RR2 == /\ pc = "rr2" /\ UNCHANGED <<ext, lin, viol>> /\ Stay
+RR2 == /\ pc = "rr2" /\ UNCHANGED <<ext, lin, viol>> /\ UNCHANGED svars /\ Stay
        /\ pc' = IF ~out.ex \/ out.ph # "td" THEN "rr3" ELSE IF out.fins # {} THEN "idle" ELSE "rr2d"
 
-RR2d == /\ pc = "rr2d" /\ UNCHANGED <<ext, lin, viol>>
+RR2d == /\ pc = "rr2d" /\ UNCHANGED <<ext, lin, viol>> /\ UNCHANGED svars
         /\ IF out.ex /\ out.fins = {} THEN WOut(Absent) /\ pc' = "rr3"
            ELSE /\ pc' = "idle" /\ dirty' = TRUE /\ UNCHANGED <<in, out, mapPending>>
 
-RR3 == /\ pc = "rr3" /\ UNCHANGED <<ext, lin, viol>>
-       /\ IF ~out.ex THEN WOut([ex |-> TRUE, ph |-> "run", fins |-> {}, val |-> 10 * lin.val]) /\ pc' = "idle"
-          ELSE IF out.ph = "td" THEN /\ pc' = "idle" /\ dirty' = TRUE /\ UNCHANGED <<in, out, mapPending>>  \* phase conflict -> error -> requeue
-          ELSE IF out.val = 10 * lin.val THEN Stay /\ pc' = "idle"
-          ELSE WOut([out EXCEPT !.val = 10 * lin.val]) /\ pc' = "idle"
+(* the transform function runs inside Modify: it reads the secondary (rr3), then the output is written (rr3w) *)
+RR3 == /\ pc = "rr3" /\ UNCHANGED <<ext, lin, viol, sec, secPending>> /\ Stay /\ lsec' = sec /\ pc' = "rr3w"
+Img == 10 * lin.val + lsec
+RR3w == /\ pc = "rr3w" /\ UNCHANGED <<ext, lin, viol>> /\ UNCHANGED svars
+        /\ IF ~out.ex THEN WOut([ex |-> TRUE, ph |-> "run", fins |-> {}, val |-> Img]) /\ pc' = "idle"
+           ELSE IF out.ph = "td" THEN /\ pc' = "idle" /\ dirty' = TRUE /\ UNCHANGED <<in, out, mapPending>>  \* phase conflict -> error -> requeue
+           ELSE IF out.val = Img THEN Stay /\ pc' = "idle"
+           ELSE WOut([out EXCEPT !.val = Img]) /\ pc' = "idle"
 
-TD1 == /\ pc = "td1" /\ UNCHANGED <<ext, lin, viol>>
+TD1 == /\ pc = "td1" /\ UNCHANGED <<ext, lin, viol>> /\ UNCHANGED svars
        /\ IF ~out.ex THEN Stay /\ pc' = "td3"
           ELSE IF out.ph = "td" THEN Stay /\ pc' = (IF out.fins = {} THEN "td2" ELSE "idle")
           ELSE WOut([out EXCEPT !.ph = "td"]) /\ pc' = (IF out.fins = {} THEN "td2" ELSE "idle")
 
-TD2 == /\ pc = "td2" /\ UNCHANGED <<ext, lin, viol>>
+TD2 == /\ pc = "td2" /\ UNCHANGED <<ext, lin, viol>> /\ UNCHANGED svars
        /\ IF out.ex /\ out.fins = {} THEN WOut(Absent) /\ pc' = "td3"
           ELSE /\ pc' = "idle" /\ dirty' = TRUE /\ UNCHANGED <<in, out, mapPending>>
 
-TD3 == /\ pc = "td3" /\ UNCHANGED <<ext, lin, viol>>
+TD3 == /\ pc = "td3" /\ UNCHANGED <<ext, lin, viol>> /\ UNCHANGED svars
        /\ IF in.ex /\ C \in in.fins THEN WIn([in EXCEPT !.fins = @ \ {C}]) /\ pc' = "idle"
           ELSE Stay /\ pc' = "idle"
 
 MapRun == /\ mapPending /\ mapPending' = FALSE /\ dirty' = (dirty \/ out.ex)
-          /\ UNCHANGED <<in, out, ext, pc, lin, viol>>
+          /\ UNCHANGED <<in, out, ext, pc, lin, viol>> /\ UNCHANGED svars
+(* the map job of the secondary: the mapper names the primary input of the same id, whether or not it exists *)
+MapSec == /\ secPending /\ secPending' = FALSE /\ dirty' = TRUE
+          /\ UNCHANGED <<in, out, ext, pc, lin, viol, mapPending, sec, lsec>>
 
-Ctrl == Start \/ R0 \/ RR1 \/ RR2 \/ RR2d \/ RR3 \/ TD1 \/ TD2 \/ TD3 \/ MapRun
-Next == (Ext /\ UNCHANGED <<pc, lin, viol>>) \/ Ctrl
+Ctrl == Start \/ R0 \/ RR1 \/ RR2 \/ RR2d \/ RR3 \/ RR3w \/ TD1 \/ TD2 \/ TD3 \/ MapRun \/ MapSec
+Next == (Ext /\ UNCHANGED <<pc, lin, viol>>) \/ SecChange \/ Ctrl
 Spec == Init /\ [][Next]_vars
 
 \* ---- C07 ----
 FinBeforeOut == out.ex => (in.ex /\ C \in in.fins)
 \* ---- C06 ----
-Quiescent == pc = "idle" /\ ~dirty /\ ~mapPending
+Quiescent == pc = "idle" /\ ~dirty /\ ~mapPending /\ ~secPending
 Held == out.ex /\ F \in out.fins
 Converged ==
-  /\ (in.ex /\ in.ph = "run") => (out.ex /\ ((out.ph = "run" /\ out.val = 10 * in.val) \/ Held))
+  /\ (in.ex /\ in.ph = "run") => (out.ex /\ ((out.ph = "run" /\ out.val = 10 * in.val + sec) \/ Held))
   /\ (~in.ex) => (~out.ex \/ Held)
   /\ (in.ex /\ in.ph = "td" /\ ~(IgnoreUntil /\ X \in in.fins)) => ((~out.ex \/ Held) /\ (~out.ex => C \notin in.fins))
 C06 == Quiescent => Converged
